@@ -109,10 +109,14 @@ func runTok(c *core.Ctx) {
 	// (c)+(d) per holder function
 	for _, fn := range sessionFuncs(c) {
 		var acq *ssa.UnOp
+		acqs := map[ssa.Value]bool{}
 		an.Instrs(fn, func(in ssa.Instruction) {
 			if u, ok := in.(*ssa.UnOp); ok && u.Op == token.ARROW {
 				if ch, ok := u.X.Type().Underlying().(*types.Chan); ok && isMergeState(ch.Elem()) {
-					acq = u
+					if acq == nil {
+						acq = u
+					}
+					acqs[u] = true
 				}
 			}
 		})
@@ -125,7 +129,7 @@ func runTok(c *core.Ctx) {
 				continue
 			}
 			nCalls++
-			if acq == nil || an.LoadedValue(ci.Common().Args[0]) != ssa.Value(acq) {
+			if !acqs[an.LoadedValue(ci.Common().Args[0])] {
 				bad = append(bad, sc.Name()+" on "+an.PathOf(ci.Common().Args[0]))
 			}
 		}
